@@ -2,6 +2,7 @@ package main
 
 import (
 	"fmt"
+	"strings"
 
 	"verif/lib/wh"
 )
@@ -53,6 +54,23 @@ func Catalogue() []NamedTree {
 		}
 		b = append(b, wh.D("dir3/empty"), wh.L("dir0/link", "../dir1/sub/f1"))
 		add("60-small-nested", b)
+	}
+	// names longer than the 100 bytes of a classic tar header field, paths longer than 255
+	add("long-names", wh.Build{
+		wh.F(strings.Repeat("n", 150), "=long file name"),
+		wh.F(strings.Repeat("d", 120)+"/"+strings.Repeat("f", 120), "=long path"),
+		wh.D(strings.Repeat("e", 130)),
+		wh.L(strings.Repeat("l", 140), strings.Repeat("n", 150)),
+		wh.F(strings.Repeat("p", 90)+"/"+strings.Repeat("q", 90)+"/"+strings.Repeat("r", 90)+"/leaf", "=over 255"),
+		wh.F("short", "=s"),
+	})
+	{
+		var b wh.Build
+		for i := 0; i < 300; i++ {
+			b = append(b, wh.D(fmt.Sprintf("empty/%03d/x", i)))
+		}
+		b = append(b, wh.F("empty/150/x/file", "=only file"))
+		add("300-empty-dirs", b)
 	}
 	add("big-first", wh.Build{
 		wh.F("0big", "r1/307200"), wh.F("1small", "=s1"), wh.F("2small", "=s2"), wh.F("3empty", ""),
